@@ -4,7 +4,7 @@ CHECK = {
     "harness": "c13_grid_index.cpp",
     "srcs": ["src/containers/grid/GridIndexMapping.cpp"],
     "flavours": ["asan"],
-    "quick": {"shards": 4, "timeout": 900},
+    "quick": {"shards": 8, "timeout": 900},
     "thorough": {"shards": 16, "timeout": 5400},
     "required_categories": ["float2", "double2", "float3", "double3",
                             "generic", "multiple", "half_multiple", "tiny", "limits", "mixed", "symmetric",
